@@ -323,7 +323,7 @@ def check_no_integer(rep, F, rule='FIXED-POINT'):
                     put('output-length[left]', not N.add(nl, N.add(target, {1: 1}), -1) and N.norm(args[2]) == ('const', 48), 'target + 1 zeros, then the rounded digit: target + 2 bytes', 'before the rounded digit is pushed the buffer must hold target + 1 zeros; it holds %s' % N.show_lin(nl))
                 elif c.endswith('Vec::push') and len(args) == 2:
                     v = N.norm(args[1])
-                    put('rounded-digit-last', _is(v, 'bin') and v[1] == 'Add' and N.norm(v[3]) == ('const', 48) and N._callp(N.norm(v[2]), r'round_digit$'), 'the rounded digit is the last byte', 'the rounded digit (plus b\'0\') must be pushed as the last byte')
+                    put('rounded-digit-last', _is(v, 'bin') and v[1] == 'Add' and ((N.norm(v[3]) == ('const', 48) and N._callp(N.norm(v[2]), r'round_digit$')) or (N.norm(v[2]) == ('const', 48) and N._callp(N.norm(v[3]), r'round_digit$'))), 'the rounded digit is the last byte', 'the rounded digit (plus b\'0\') must be pushed as the last byte')
     n = 0
     for cell, (ok, why) in sorted(cells.items()):
         n += 1
